@@ -68,6 +68,12 @@ theorem grows_by_factor_until_cap {factor stop start : α} (hv : Valid factor st
   rw [seqAt_succ]
   exact next_of_ne_zero hv.toLaws hr.1 hr.2 hne
 
+/-- with jitter off (`False` / `0`) the value yielded at a position is the un-jittered delay,
+    whatever the random source does (it is not consulted) -/
+theorem jitter_off_yields_delay (p : Params α) (hj : p.jitter = 0) (r : Nat → α) (i : Nat) :
+    yieldAt r p i = seqAt p.factor p.stop p.start i := by
+  simp only [yieldAt, hj, emit_off]
+
 /-- exactly `count` values are produced when `count ≥ 0` is given, and the value at
     position `i` is the (jittered) delay at position `i` -/
 theorem length_eq_count {p : Params α} (hp : ValidParams p) (hj : JitterOk p) (k : Int) (hk : 0 ≤ k)
@@ -312,6 +318,22 @@ theorem default_count_reaches_stop (p : Params Rat) (h0 : 0 ≤ p.start) (h1 : p
     · rw [hout] at hm
       have : (List.range n).map (yieldAt r p) = (List.range m).map (yieldAt r p) := by simpa using hm
       rw [this]; exact hlast hj0
+
+/-- the default count in closed form (positive start): it is `n = 1 + k` for the least `k` with
+    `stop ≤ start · factorᵏ`, i.e. `1 + ⌈log_factor (stop / start)⌉` computed exactly — what the
+    original floating-point logarithm only approximated -/
+theorem default_count_is_log_ceiling (p : Params Rat) (h0 : 0 < p.start) (h1 : p.start ≤ p.stop)
+    (hf : 1 ≤ p.factor) (hc : p.count = .dflt) (fuel n : Nat) (h : resolveCount fuel p = .num n) :
+    1 ≤ n ∧ p.stop ≤ p.start * p.factor ^ (n - 1) ∧ ∀ i, i < n - 1 → p.start * p.factor ^ i < p.stop := by
+  have hp := rat_validParams p (Rat.le_of_lt h0) h1 (by grind) hf
+  obtain ⟨hn, hlast, hbefore⟩ := default_count_last_is_stop hp hc fuel n h
+  refine ⟨hn, ?_, ?_⟩
+  · rw [closed_form_pos p.factor p.stop p.start h0 h1 hf] at hlast
+    grind
+  · intro i hi
+    have := hbefore i hi
+    rw [closed_form_pos p.factor p.stop p.start h0 h1 hf] at this
+    grind
 
 /-- jitter: with `j ∈ [-1, 1]` and every draw in `[0, 1)`, the value yielded at any position
     lies between the un-jittered value `b` at that position and `b * (1 - j)`, inclusive -/
